@@ -314,16 +314,29 @@ var $newType = (size, kind, string, named, pkg, exported, constructor) => {
                             return v[m.prop](...args);
                         };
                     };
+                    // A method is promoted from the embedded field that declares it at the
+                    // shallowest depth, whatever the order of the fields is.
+                    var best = {};
+                    var consider = (target, m, f, fTyp) => {
+                        var depth = fTyp.methodDepths[m.name + "$" + m.pkg];
+                        var k = (target === typ ? "v$" : "p$") + m.prop;
+                        if (best[k] === undefined || depth < best[k].depth) {
+                            best[k] = { target: target, m: m, f: f, depth: depth };
+                        }
+                    };
                     fields.forEach(f => {
                         if (f.embedded) {
                             $methodSet(f.typ).forEach(m => {
-                                synthesizeMethod(typ, m, f);
-                                synthesizeMethod(typ.ptr, m, f);
+                                consider(typ, m, f, f.typ);
+                                consider(typ.ptr, m, f, f.typ);
                             });
                             $methodSet($ptrType(f.typ)).forEach(m => {
-                                synthesizeMethod(typ.ptr, m, f);
+                                consider(typ.ptr, m, f, $ptrType(f.typ));
                             });
                         }
+                    });
+                    Object.keys(best).forEach(k => {
+                        synthesizeMethod(best[k].target, best[k].m, best[k].f);
                     });
                 });
             };
@@ -428,8 +441,12 @@ var $methodSet = typ => {
     var isPtr = (typ.kind === $kindPtr);
     if (isPtr && typ.elem.kind === $kindInterface) {
         typ.methodSetCache = [];
+        typ.methodDepths = {};
         return [];
     }
+    // Depth of embedding at which each method of the method set is declared.
+    var depths = {};
+    var depth = 0;
 
     var current = [{ typ: isPtr ? typ.elem : typ, indirect: isPtr }];
 
@@ -483,6 +500,7 @@ var $methodSet = typ => {
         mset.forEach(m => {
             if (base[key(m)] === undefined) {
                 base[key(m)] = count[key(m)] > 1 ? null : m;
+                depths[key(m)] = depth;
             }
         });
         hidden.forEach(m => {
@@ -492,8 +510,10 @@ var $methodSet = typ => {
         });
 
         current = next;
+        depth++;
     }
 
+    typ.methodDepths = depths;
     typ.methodSetCache = [];
     Object.keys(base).sort().forEach(name => {
         if (base[name] !== null) {
